@@ -32,6 +32,9 @@ from concurrent.futures import ThreadPoolExecutor
 ANSI = re.compile(r"\x1b\[[0-9;]*m")
 TIMEOUT = int(os.environ.get("C07_TIMEOUT", "30"))      # seconds = "hangs" (property text): CPU seconds, see Runner._cmd
 INTERNAL_PHRASES = ["bug of the erg compiler", "bug of erg compiler", "this is a bug", "bug of erg"]
+CPU_LIMIT = 3 * TIMEOUT   # CPU seconds after which a command counts as hanging: three times the property's 30 s, because CPU
+                          # time itself is inflated (page faults, cache thrashing) on a heavily loaded machine
+HANG_SAMPLE_AFTER = 20    # seconds before the stack of a hanging command is sampled
 MAGIC_311 = "3495"      # `--py-magic-num 3495` = what the default detection finds for python3.11; saves three python
                         # subprocesses per compile (a sample is also compiled without it)
 CRASH_KINDS = ("panic", "bug", "signal", "hang", "exit")
@@ -112,7 +115,7 @@ def classify(repo, cmd, rc, text, timed_out, secs=0.0):
             ms = re.findall(r"(?m)^([A-Za-z]+(?:Error|Warning)): (.*)$", blk)
             line = (ms[-1][0] + ": " + ms[-1][1]) if ms else "internal compiler error"
             # message pattern: identifiers/types replaced by *
-            pat = re.sub(r"Type \S+ is not found", "Type * is not found", line)
+            pat = re.sub(r"Type .+ is not found", "Type * is not found", line)
             site = "message:" + pat[:80]
             msg = line[:200]
         return Outcome(cmd, "bug", site, msg, rc, text, secs)
@@ -171,7 +174,7 @@ def opt_level_tie(repo):
 
 def _cpu_limit():
     import resource
-    resource.setrlimit(resource.RLIMIT_CPU, (TIMEOUT, TIMEOUT + 5))
+    resource.setrlimit(resource.RLIMIT_CPU, (CPU_LIMIT, CPU_LIMIT + 5))
 
 
 class Runner:
@@ -229,6 +232,48 @@ class Runner:
         # the members of the recursion cycle occur again and again; the few innermost leaf frames do not
         return "+".join(sorted(n for n, k in names.items() if k >= 3))[:300]
 
+    def hang_site(self, args, path):
+        """a hang has no location either: start the command again, attach gdb after HANG_SAMPLE_AFTER seconds and name the
+        busy place by the two functions of the compiler crate that occur most often on the stack in both of two samples
+        taken some seconds apart (coarse: different hangs inside the same recursion share a site).  '' without gdb."""
+        if not shutil.which("gdb"):
+            return ""
+        import time
+        try:
+            p = subprocess.Popen([self.erg] + args + [path], env=self.env, stdout=subprocess.DEVNULL, stderr=subprocess.DEVNULL,
+                                 cwd=os.path.dirname(path))
+        except OSError:
+            return ""
+        samples = []
+        try:
+            time.sleep(HANG_SAMPLE_AFTER)
+            for _ in range(2):
+                if p.poll() is not None:
+                    return ""
+                q = subprocess.run(["gdb", "-p", str(p.pid), "-batch", "-ex", "thread apply all bt 120"], capture_output=True, timeout=600)
+                names = []
+                for line in q.stdout.decode("utf-8", "replace").splitlines():
+                    for _k in range(5):
+                        line = re.sub(r"<[^<>]*>", "", line)
+                    m = re.match(r"^#(\d+)\s+(?:0x[0-9a-f]+ in )?([^\s(]+)", line)
+                    if m and m.group(2).startswith("erg_compiler::") and "{" not in m.group(2):
+                        parts = [x for x in m.group(2).split("::") if x]
+                        names.append("::".join(parts[-2:]))
+                samples.append(names)
+                time.sleep(5)
+        except (subprocess.TimeoutExpired, OSError):
+            return ""
+        finally:
+            p.kill()
+        if len(samples) < 2:
+            return ""
+        # the two functions that occur most often on the stack in both samples (a busy recursion shows its cycle)
+        score = {}
+        for n in set(samples[0]) & set(samples[1]):
+            score[n] = min(samples[0].count(n), samples[1].count(n))
+        top = sorted(score, key=lambda n: (-score[n], n))[:2]
+        return "+".join(sorted(top))[:300]
+
     def run_one(self, name, src, levels=None, default_magic=False):
         levels = self.levels if levels is None else levels
         d = os.path.join(self.work, name)
@@ -255,6 +300,12 @@ class Runner:
                 site = self.overflow_site(argv + extra, path)
                 if site:
                     o.site = "stack-overflow:" + site
+            if o.kind == "hang" and o.site == "timeout":
+                argv = o.cmd.split()
+                extra = ["--py-magic-num", MAGIC_311] if (argv[0] == "compile" and magic) else []
+                site = self.hang_site(argv + extra, path)
+                if site:
+                    o.site = "timeout:" + site
         for f in os.listdir(d):
             try:
                 os.remove(os.path.join(d, f))
@@ -272,7 +323,12 @@ class Runner:
             self.n += 1
             names.append("q%d" % self.n)
         with ThreadPoolExecutor(self.workers) as ex:
-            return list(ex.map(lambda a: self.run_one(a[0], a[1], levels, default_magic), zip(names, items)))
+            res = list(ex.map(lambda a: self.run_one(a[0], a[1], levels, default_magic), zip(names, items)))
+        # a hang seen while 16 programs ran in parallel is re-established alone before it counts
+        for k, r in enumerate(res):
+            if any(o.kind == "hang" for o in r.outcomes):
+                res[k] = self.run_one(names[k] + "r", items[k], levels, default_magic)
+        return res
 
     def parses_many(self, srcs):
         """`erg --mode parse` accepts the text (exit status 0, no panic)"""
